@@ -369,7 +369,10 @@ func c09ReaderErrors(c *Ctx, ndocs int) {
 				got := d.mk()
 				dec := json.NewDecoder(&cutReader{pieces: [][]byte{b[:k]}, failErr: errBoom})
 				err := dec.Decode(got)
-				complete := k == len(b)
+				// the delivered prefix may already be a complete value (trailing white space missing):
+				// containers, strings and literals end by themselves, numbers do not
+				t := bytes.TrimSpace(b[:k])
+				complete := k == len(b) || (stdjson.Valid(t) && len(t) > 0 && !(t[len(t)-1] >= '0' && t[len(t)-1] <= '9'))
 				if complete {
 					// the value may legitimately be complete; only containers/strings/literals are
 					// known complete without a delimiter, numbers are not: skip k == len
